@@ -147,8 +147,8 @@ def main():
     flip("Cluster Dynamic=FALSE (as found)", "Cluster.tla", c, ["C16_NoCrossApply", "C16_NoCrossData"])
     import prop_c10 as _p10
     c = _p10.cfg("Spec", "{1}", 2, 2, 2).replace(".cfg", "_fail.cfg")
-    open(c, "w").write(open(_p10.cfg("Spec", "{1}", 2, 2, 2)).read().replace("ApplyMayFail = FALSE", "ApplyMayFail = TRUE"))
-    flip("Ingest ApplyMayFail=TRUE (known finding S15)", "Ingest.tla", c, ["C10_CacheSoundSeqs", "C10_CacheSoundEmpty"])
+    open(c, "w").write(open(_p10.cfg("Spec", "{1}", 2, 2, 2, may_fail=True, fix_s15=False)).read())
+    flip("Ingest FixS15=FALSE with ApplyMayFail=TRUE (S15 as found)", "Ingest.tla", c, ["C10_CacheSoundSeqs", "C10_CacheSoundEmpty"])
     c = prop_c02.write_cfg("demo_bk", prop_c02.CONFIGS_QUICK["B"], "Spec", fullstart=1)
     flip("Bookkeeping FullStart=1 (as found)", "MCBookkeeping.tla", c, None)
     res["wall_s"] = round(time.time() - t0, 1)
